@@ -110,7 +110,9 @@ class C12(Check):
             "exactly the empty MetaData wrappers), the title, the return value / exception and the recoverable "
             "root dataset are compared; (2) every interleaving of start / complete-with-result / "
             "complete-with-exception of N concurrent value_async() calls on streams of two datasets; "
-            "(3) find_EventDataset on constructed ASTs with 0, 1, 2 dataset nodes in every position")
+            "(3) find_EventDataset on constructed ASTs with 0, 1, 2 dataset nodes in every position (two different "
+            "datasets, the same dataset twice, roots written as text without a dataset object); (4) streams not "
+            "rooted in a dataset object: the override is used exactly once, no override is rejected")
     assumptions = ["the executor suspends on a gate the scheduler resolves; no event loop is involved in (2)",
                    "value() (make_sync: event loop in a worker thread) is one atomic operation in (1)"]
     level_text = ("explicit-state model checking of the implementation (histories) plus exhaustive schedule "
@@ -126,6 +128,8 @@ class C12(Check):
                Space("schedules", {"concurrent_calls": "N<=3" if Q else "N<=4", "datasets": 2,
                                    "completions": "result or exception"},
                      [("sched", n) for n in ((1, 2, 3) if Q else (1, 2, 3, 4))], runner="run_sched"),
+               Space("rootless streams", {"bases": "a name, a text-decoded dataset call, a text-decoded query", "derivations": 5,
+                                           "calls": "value(executor=override[, title]) and value()"}, [("rootless", 0)], runner="run_rootless"),
                Space("roots", {"asts": "0, 1, 2 EventDataset nodes at chain root / lambda body / argument"},
                      [("roots", 0)], runner="run_roots")]
         return out
@@ -229,7 +233,7 @@ class C12(Check):
                   "Select(xs, lambda e: First(Select(R, lambda q: q.y)))", "f(1, R)", "ResultTTree(R, ['a'], 't', 'f')",
                   "(R, 1)", "Select(R, lambda e: R2)", "g(R, R2)", "Select(R, lambda e: e.x) + Count(R2)"]
         for sh in shapes:
-            for variant in ("one", "none", "two"):
+            for variant in ("one", "none", "two", "two-same", "two-unbound", "one-unbound"):
                 src = sh
                 if variant == "none":
                     src = sh.replace("R2", "zs").replace("R", "ys")
@@ -239,13 +243,15 @@ class C12(Check):
 
                 class Sub(ast.NodeTransformer):
                     def visit_Name(self, n):
+                        unbound = variant.endswith("unbound")  # a root written as text: EventDataset() without an object
                         if n.id == "R":
-                            want.append(ds[0])
-                            return ds[0].query_ast
+                            want.append(None if unbound else ds[0])
+                            return ast.parse("EventDataset()", mode="eval").body if unbound else ds[0].query_ast
                         if n.id == "R2":
-                            if variant == "two" or "R" not in sh.replace("R2", ""):
-                                want.append(ds[1])
-                                return ds[1].query_ast
+                            if variant.startswith("two") or "R" not in sh.replace("R2", ""):
+                                other = ds[0] if variant == "two-same" else ds[1]
+                                want.append(None if unbound else other)
+                                return ast.parse("EventDataset()", mode="eval").body if unbound else other.query_ast
                             return ast.Name("zs", ast.Load())
                         return n
                 tree = Sub().visit(tree)
@@ -258,13 +264,60 @@ class C12(Check):
                     out = ("raised", type(e).__name__)
                 res["oc"].append(f"roots={nroots}:{out[0]}")
                 canon = f"{sh}|{variant}"
-                if nroots == 1:
+                if variant == "one-unbound" and nroots == 1:
+                    if out[0] != "found":
+                        res["viol"].append({"kind": "single-root-not-found", "canon": canon, "msg": repr(out)})
+                elif nroots == 1:
                     if out[0] != "found" or out[1] is not want[0]:
                         res["viol"].append({"kind": "single-root-not-found", "canon": canon, "msg": repr(out)})
                 else:
                     if out[0] != "raised":
                         res["viol"].append({"kind": f"{nroots}-roots-not-rejected", "canon": canon, "msg": repr(out)})
                 res["nt"].append(canon)
+        res["oc"] = sorted(set(res["oc"]))
+        return res
+
+    def run_rootless(self, k):
+        """streams that are not rooted in a dataset object (built on a name, or decoded from text): an override
+        executor is the one executor of the call; without an override the call is rejected"""
+        from func_adl import ObjectStream
+
+        res = {"n": 0, "nt": [f"rootless|{k}"], "oc": [], "tags": {}, "viol": [], "states": set(), "trans": 0}
+        bases = [lambda: ObjectStream(ast.Name("xs", ast.Load())),
+                 lambda: ObjectStream(ast.parse("EventDataset()", mode="eval").body),
+                 lambda: ObjectStream(ast.parse("Select(EventDataset(), lambda e: e.jets)", mode="eval").body)]
+        derive = [lambda s: s, lambda s: s.Select("lambda e: e.x"), lambda s: s.Where("lambda e: e.x > 1").MetaData({}),
+                  lambda s: s.Select("lambda e: e.x").AsAwkwardArray(["c"]), lambda s: s.QMetaData({"a": 1}).Select("lambda e: e.y")]
+        for b in bases:
+            for d in derive:
+                s = d(b())
+                want = streams.dump_without_empty_metadata(s.query_ast, lambda v: "?")
+                for title in (None, "t"):
+                    calls = []
+
+                    async def ov(a, title=None):
+                        calls.append((a, title))
+                        return ("ov", len(calls))
+
+                    res["n"] += 1
+                    try:
+                        r = s.value(executor=ov, title=title)
+                    except Exception as e:
+                        res["oc"].append("override:raised")
+                        res["viol"].append({"kind": "override-not-used-on-a-stream-without-dataset", "canon": f"rootless|{k}",
+                                            "msg": f"{ast.unparse(s.query_ast)[:120]}: {type(e).__name__}: {e}"[:220]})
+                        continue
+                    got = streams.dump_without_empty_metadata(calls[0][0], lambda v: "?", strip=False) if calls else None
+                    if len(calls) != 1 or r != ("ov", 1) or calls[0][1] != title or got != want:
+                        res["viol"].append({"kind": "override-call-differs", "canon": f"rootless|{k}",
+                                            "msg": f"calls {len(calls)} result {r!r} title {calls[0][1] if calls else None!r}"})
+                    res["oc"].append("override:used-once")
+                try:
+                    s.value()
+                    res["oc"].append("no-override:returned")
+                    res["viol"].append({"kind": "stream-without-dataset-executed", "canon": f"rootless|{k}", "msg": ast.unparse(s.query_ast)[:150]})
+                except Exception:
+                    res["oc"].append("no-override:rejected")
         res["oc"] = sorted(set(res["oc"]))
         return res
 
